@@ -28,6 +28,8 @@ struct TS {
     /// released but neither yielded nor finished within the bound: assumed to sit on a real lock
     blocked: Vec<bool>,
     gate_aware: bool,
+    /// set when the scheduler gives up: every controlled thread then runs freely to its end
+    abort: bool,
     blocked_events: u64,
     trace: Vec<(usize, String)>,
 }
@@ -54,6 +56,7 @@ impl ThreadSched {
             at_op_begin: vec![false; n],
             blocked: vec![false; n],
             gate_aware: true,
+            abort: false,
             blocked_events: 0,
             trace: vec![],
         };
@@ -76,6 +79,16 @@ impl ThreadSched {
     /// Runs the schedule to completion. Returns the trace of (thread, tag)
     /// decisions, or Err("inconclusive: ...") on a stuck thread.
     pub fn run(&self, ch: &mut Chooser, max_steps: usize) -> Result<Vec<(usize, String)>, String> {
+        let r = self.run_inner(ch, max_steps);
+        if r.is_err() {
+            let (m, cv) = &*self.inner;
+            let mut g = m.lock().unwrap();
+            g.abort = true;
+            cv.notify_all();
+        }
+        r
+    }
+    fn run_inner(&self, ch: &mut Chooser, max_steps: usize) -> Result<Vec<(usize, String)>, String> {
         let (m, cv) = &*self.inner;
         let mut steps = 0;
         loop {
@@ -143,6 +156,9 @@ impl ThreadHandle {
     fn wait_turn(&self, tag: &str, op_begin: Option<bool>) {
         let (m, cv) = &*self.inner;
         let mut g = m.lock().unwrap();
+        if g.abort {
+            return;
+        }
         g.blocked[self.me] = false;
         g.at[self.me] = Some(tag.to_string());
         if let Some(excl) = op_begin {
@@ -154,7 +170,7 @@ impl ThreadHandle {
             g.current = None;
         }
         cv.notify_all();
-        while g.current != Some(self.me) {
+        while g.current != Some(self.me) && !g.abort {
             g = cv.wait(g).unwrap();
         }
     }
